@@ -8,6 +8,9 @@ import RSVerif.Proofs.Walsh
 import RSVerif.Proofs.Sched
 import RSVerif.Proofs.FftEval
 import RSVerif.Proofs.GF16
+import RSVerif.Proofs.WalshSpec
+import RSVerif.Proofs.TableSpec
+import RSVerif.Proofs.LocatorSpec
 
 namespace RS
 open ShardAlg
@@ -71,5 +74,41 @@ theorem evalPoly_trunc_indep' (lw erasures : Array Nat) (t t' : Nat) (hs : erasu
     (hz : ∀ i, t ≤ i → i < 65536 → erasures.getD i 0 = 0) (htt : t ≤ t') :
     evalPolyWith lw erasures t' = evalPolyWith lw erasures t :=
   evalPoly_trunc_mono lw erasures t t' hs hz htt
+
+/-- eval_poly is the Walsh–Hadamard convolution, modulo 65535, of the indicator with the table that
+    `LOG_WALSH` is the transform of: for every field point x, Σ_{j marked} lg(x ⊕ j) -/
+theorem evalPoly_is_convolution (erasures lg : Array Nat) (trunc : Nat) (hse : erasures.size = 65536)
+    (hsl : lg.size = 65536)
+    (hbe : ∀ i, i < 65536 → erasures.getD i 0 = 0 ∨ erasures.getD i 0 = 1)
+    (hbl : ∀ i, i < 65536 → lg.getD i 0 < 65536)
+    (hz : ∀ i, trunc ≤ i → i < 65536 → erasures.getD i 0 = 0) (x : Nat) (hx : x < 65536) :
+    (((evalPolyWith (fwht lg 65536) erasures trunc).getD x 0 : Nat) : ZMod 65535) =
+      ∑ j ∈ (Finset.range 65536).filter (fun j => erasures.getD j 0 = 1),
+        ((lg.getD (x ^^^ j) 0 : Nat) : ZMod 65535) :=
+  evalPoly_spec_indicator erasures lg trunc hse hsl hbe hbl hz x hx
+
+/-- … hence, with the model's tables, eval_poly returns for every field point x the discrete log of
+    the product of (x ⊕ j) over all marked j ≠ x: the erasure locator at an unmarked point, its
+    derivative at a marked one -/
+theorem evalPoly_is_locator_log (er : Array Nat) (trunc : Nat) (hs : er.size = 65536)
+    (h01 : ∀ i, i < 65536 → er.getD i 0 = 0 ∨ er.getD i 0 = 1)
+    (hz : ∀ i, trunc ≤ i → i < 65536 → er.getD i 0 = 0) (x : Nat) (hx : x < 65536) :
+    (evalPolyWith logWalshArr er trunc).getD x 0 < 65536 ∧
+    (⟨gexp ((evalPolyWith logWalshArr er trunc).getD x 0)⟩ : GF16) =
+      ∏ u ∈ ((Finset.range 65536).filter (fun u => er.getD u 0 = 1)).erase x, (pt x - pt u) := by
+  rw [logWalshArr_def]
+  exact locator_of_logs er trunc hs h01 hz x hx
+
+/-- the model's tables equal their definitions: exp[k] = g^k, log inverts exp with log[0] = 65535,
+    LOG_WALSH is the transform of log with entry 0 cleared, skew[i] = log of the twiddle element
+    (65535 exactly where the element is zero) -/
+theorem tables_spec :
+    (∀ k, k < 65536 → expArr.getD k 0#16 = gexp k) ∧
+    logArr.getD 0 0 = 65535 ∧ (∀ k, k < 65535 → logArr.getD (gexp k).toNat 0 = k) ∧
+    (∀ x : Sym, x ≠ 0 → gexp (lgArr.getD x.toNat 0) = x) ∧
+    logWalshArr = fwht lgArr 65536 ∧
+    (∀ i, skewLog i = 65535 ↔ skewElem i = 0) ∧
+    (∀ i, skewElem i ≠ 0 → gexp (skewLog i) = skewElem i ∧ skewLog i < 65535) :=
+  ⟨expArr_get, logArr_zero, logArr_gexp, gexp_lg, logWalshArr_def, skewLog_eq_65535_iff, skewLog_spec⟩
 
 end RS
